@@ -32,6 +32,11 @@ type tbWorld struct {
 	fired  []string
 	cycles uint64
 	nEval  int
+	// removal of a rule while the run is in progress (C16)
+	removing       bool
+	removeAt       int
+	removeName     string
+	removedEntries map[*ast.RuleEntry]bool
 }
 
 // c08 mirrors: in a later call on a reused instance the C01/C02 oracle failures are C08 violations as well
@@ -116,9 +121,9 @@ func (w *tbWorld) fresh(name string) bool {
 	if re.WhenScope != nil {
 		deepReset(re.WhenScope.Expression, 0)
 	}
-	hc, gc, ic := w.f.HeavyCalls, w.f.GetICalls, w.f.ItemCalls()
+	hc, gc, ic, isc := w.f.HeavyCalls, w.f.GetICalls, w.f.ItemCalls(), w.f.ItemsCalls
 	can, err := re.Evaluate(context.Background(), w.dc, w.ref.WorkingMemory)
-	w.f.HeavyCalls, w.f.GetICalls = hc, gc // the oracle's own evaluations are not counted
+	w.f.HeavyCalls, w.f.GetICalls, w.f.ItemsCalls = hc, gc, isc // the oracle's own evaluations are not counted
 	if len(w.f.items) > 0 {
 		w.f.items[0].Calls = ic
 	}
@@ -138,19 +143,26 @@ func (w *tbWorld) freshFails(name string) bool {
 	if re.WhenScope != nil {
 		deepReset(re.WhenScope.Expression, 0)
 	}
-	hc, gc, ic := w.f.HeavyCalls, w.f.GetICalls, w.f.ItemCalls()
+	hc, gc, ic, isc := w.f.HeavyCalls, w.f.GetICalls, w.f.ItemCalls(), w.f.ItemsCalls
 	_, err := re.Evaluate(context.Background(), w.dc, w.ref.WorkingMemory)
-	w.f.HeavyCalls, w.f.GetICalls = hc, gc
+	w.f.HeavyCalls, w.f.GetICalls, w.f.ItemsCalls = hc, gc, isc
 	if len(w.f.items) > 0 {
 		w.f.items[0].Calls = ic
 	}
 	return err != nil
 }
 
+// failing templates: firing is additionally checked against "the condition does not FAIL now" under a C14 label
+var tbFailingTemplates = map[string]bool{"b_fail": true, "b_nilptr": true, "b_parenfail": true, "b_kind": true, "b_heal": true}
+
 func (w *tbWorld) BeginCycle(ctx context.Context, cycle uint64) { w.cycles = cycle }
 
 func (w *tbWorld) EvaluateRuleEntry(ctx context.Context, cycle uint64, e *ast.RuleEntry, cand bool) {
 	w.nEval++
+	if w.removing {
+		verif.Assert(w.L("C16:rule-removed-during-the-run-is-never-evaluated-again"), !w.removedEntries[e] && !e.Deleted)
+		return
+	}
 	f := w.fresh(e.RuleName)
 	verif.Assert(w.L("C02:satisfied-rule-is-reported-candidate:"+e.RuleName), verif.Implies(f, cand))
 	verif.Assert(w.L("C01:candidate-only-when-the-condition-holds-now:"+e.RuleName), verif.Implies(cand, f))
@@ -161,7 +173,24 @@ func (w *tbWorld) EvaluateRuleEntry(ctx context.Context, cycle uint64, e *ast.Ru
 }
 
 func (w *tbWorld) ExecuteRuleEntry(ctx context.Context, cycle uint64, e *ast.RuleEntry) {
+	if w.removing {
+		verif.Assert(w.L("C16:rule-removed-during-the-run-is-never-fired-again"), !w.removedEntries[e] && !e.Deleted)
+		if len(w.fired) == w.removeAt && e.RuleName != w.removeName {
+			// the host (here: a listener) removes ANOTHER rule of this instance while the run is in progress
+			if re := w.kb.RuleEntries[w.removeName]; re != nil {
+				w.removedEntries[re] = true
+				w.kb.RemoveRuleEntry(w.removeName)
+				verif.Reach("tierB:rule-removed-during-the-run")
+			}
+		}
+		w.fired = append(w.fired, e.RuleName)
+		verif.Event("EX", cycle, e.RuleName)
+		return
+	}
 	verif.Assert(w.L("C01:fires-only-when-the-condition-holds-now:"+e.RuleName), w.fresh(e.RuleName))
+	if tbFailingTemplates[strings.TrimSuffix(w.tmpl, "/loaded-from-GRB")] {
+		verif.Assert(w.L("C14:rule-whose-condition-fails-now-does-not-fire:"+e.RuleName), !w.freshFails(e.RuleName))
+	}
 	verif.Assert(w.L("C01:fired-rule-is-active:"+e.RuleName), !e.Retracted && !e.Deleted)
 	w.fired = append(w.fired, e.RuleName)
 	verif.Event("EX", cycle, e.RuleName)
@@ -326,6 +355,7 @@ func (w *tbWorld) frame(pre factSnap, n int64, may map[string]bool) {
 	chk(`F.M["b"]`, pre.mb == post.mb)
 	verif.Assert(w.L("C04:frame:no-map-entry-appears-or-disappears"), pre.mlen == post.mlen)
 	chk("F.PI", pre.pi == post.pi)
+	verif.Assert(w.L("C04:frame:pointer-to-number-field-keeps-its-cell"), a.PI == b.PI)
 	chk("N", pre.n == post.n)
 }
 
@@ -354,11 +384,20 @@ func tbInvalidates(re *ast.RuleEntry, what int) bool {
 		return true
 	}
 	for _, te := range re.ThenScope.ThenExpressionList.ThenExpressions {
-		if te.ExpressionAtom != nil && (strings.Contains(te.ExpressionAtom.GrlText, "Forget(") || strings.Contains(te.ExpressionAtom.GrlText, "Changed(")) {
-			// Changed("F.I") names a variable that does not occur in an argument-less call
-			if what == 1 && !strings.Contains(te.ExpressionAtom.GrlText, "()") && !strings.Contains(te.ExpressionAtom.GrlText, `"F"`) {
-				continue
-			}
+		if te.ExpressionAtom == nil {
+			continue
+		}
+		t := te.ExpressionAtom.GrlText
+		if !strings.Contains(t, "Forget(") && !strings.Contains(t, "Changed(") {
+			continue
+		}
+		// the announced snippet concerns a counted call when it names the whole fact, the call itself, or (Heavy) its argument
+		switch {
+		case strings.Contains(t, `"F"`):
+			return true
+		case what == 0 && (strings.Contains(t, `"F.I"`) || strings.Contains(t, "F.Heavy")):
+			return true
+		case what == 1 && (strings.Contains(t, "F.GetI") || strings.Contains(t, "F.Items")):
 			return true
 		}
 	}
@@ -367,16 +406,21 @@ func tbInvalidates(re *ast.RuleEntry, what int) bool {
 
 // Template sets (the *programs* dimension is a curated family; see DESIGN §4).
 var tbSets = map[string][]string{
-	"json":     {"j_basic"},
-	"memo":     {"b_basic", "b_toplevel", "b_slice_sel", "b_slice", "b_map", "b_nested", "b_short", "b_shared", "b_forget", "b_ptrswap", "b_forgetcall", "b_chain", "b_failshared", "b_elemfield", "m_multires", "m_partial", "b_elemheavy", "b_substr"},
-	"control":  {"b_retract", "b_fail", "b_nilptr", "b_actfail", "b_completefail", "b_parenfail", "b_kind"},
+	"json":     {"j_basic", "j_kind"},
+	"memo":     {"b_basic", "b_toplevel", "b_slice_sel", "b_slice", "b_map", "b_nested", "b_short", "b_shared", "b_forget", "b_ptrswap", "b_forgetcall", "b_chain", "b_failshared", "b_elemfield", "m_multires", "m_partial", "b_elemheavy", "b_substr", "b_idxshare", "b_spelling", "b_innershare", "b_forgetheavy", "b_spellstr"},
+	"control":  {"b_retract", "b_fail", "b_nilptr", "b_actfail", "b_completefail", "b_parenfail", "b_kind", "b_completetop", "b_retractelem", "b_heal"},
 	"values":   {"b_compound", "b_args", "b_float", "b_string", "b_ifacebool"},
-	"reuse":    {"b_unread", "b_retract", "b_basic", "b_writeonly", "b_complete"},
-	"reuseq":   {"b_unread", "b_basic", "b_writeonly", "b_complete"},
-	"failing":  {"b_kind", "b_fail", "b_nilptr", "b_parenfail"},
+	"reuse":    {"b_unread", "b_retract", "b_basic", "b_writeonly", "b_complete", "b_spelling"},
+	"reuseq":   {"b_unread", "b_basic", "b_writeonly", "b_complete", "b_spelling"},
+	"failing":  {"b_kind", "b_fail", "b_nilptr", "b_parenfail", "b_heal"},
+	"nilp":     {"b_heal", "b_nilptr"},
+	"removal":  {"b_basic", "b_retract", "two"},
+	"reusef":   {"b_forget", "b_forgetcall", "b_basic"},
+	"actfail":  {"b_actfail", "b_completefail"},
+	"ctl1":     {"b_retract", "b_completetop"},
 	"controlp": {"b_retract", "b_fail", "b_nilptr", "b_actfail", "b_completefail"},
 	"dbg":      {"b_kind"},
-	"fetch":    {"b_basic", "b_short", "b_map", "b_slice", "b_nested", "b_shared", "b_ifacebool"},
+	"fetch":    {"b_basic", "b_short", "b_map", "b_slice", "b_nested", "b_shared", "b_ifacebool", "b_argshare"},
 	"clone":    {"b_paren", "b_argshare", "b_shared", "b_short", "b_retract", "b_map", "b_slice_sel", "b_forgetcall", "two"},
 }
 
@@ -411,6 +455,8 @@ func VerifTierBRun(tmpl string, maxCycle int, flags int) {
 	if flags&8 != 0 {
 		// ReturnErrOnFailedRuleEvaluation: which active rules' conditions fail on the initial facts (memo-free)?
 		eng.ReturnErrOnFailedRuleEvaluation = true
+		// the built-in functions are part of every run's data context (the engine adds them first thing)
+		_ = w.dc.Add("DEFUNC", &ast.BuiltInFunctions{Knowledge: w.kb, WorkingMemory: w.kb.WorkingMemory, DataContext: w.dc})
 		for _, n := range w.names {
 			if re := w.kb.RuleEntries[n]; !re.Deleted && w.freshFails(n) {
 				failing0 = append(failing0, n)
@@ -470,6 +516,7 @@ func VerifTierBRun(tmpl string, maxCycle int, flags int) {
 	verif.Assert(w.L("C13:shared-call-evaluated-at-most-once-between-invalidations"), w.f.HeavyCalls <= 1+invalidations)
 	verif.Assert(w.L("C13:shared-accessor-evaluated-at-most-once-between-invalidations"), w.f.GetICalls <= 1+invalidations0)
 	verif.Assert(w.L("C13:shared-call-on-an-element-of-a-method-result-evaluated-at-most-once"), w.f.ItemCalls() <= 1+invalidations0)
+	verif.Assert(w.L("C13:call-that-is-the-receiver-of-several-different-atoms-evaluated-at-most-once"), w.f.ItemsCalls <= 1+invalidations0)
 	if w.f.HeavyCalls > 0 {
 		verif.Reach("tierB:counted-call-ran")
 	}
@@ -523,6 +570,7 @@ var tbPost = map[string]func(w *tbWorld, pre factSnap, err error){
 		if fs["R4"] > 0 {
 			verif.Reach("tierB:complete-fired")
 			verif.Assert(w.L("C10:actions-after-Complete-still-run"), w.f.U16 == 7)
+			verif.Assert(w.L("C03:actions-of-the-fired-rule-are-applied-completely"), w.f.U16 == 7)
 			verif.Assert(w.L("C10:Execute-returns-nil-after-Complete"), err == nil)
 			verif.Assert(w.L("C10:nothing-fires-after-Complete"), w.fired[len(w.fired)-1] == "R4")
 		}
@@ -547,6 +595,7 @@ var tbPost = map[string]func(w *tbWorld, pre factSnap, err error){
 			}
 			verif.Assert(w.L("C14:effects-of-completed-actions-are-kept"), w.f.U8 == 1)
 			verif.Assert(w.L("C14:actions-after-the-failing-one-do-not-run"), w.f.U16 == pre.f.U16)
+			verif.Assert(w.L("C04:nothing-is-written-after-a-failing-action"), w.f.U16 == pre.f.U16)
 			verif.Assert(w.L("C14:no-rule-fires-after-a-failed-action"), w.fired[len(w.fired)-1] == "AF1")
 		}
 	},
@@ -560,6 +609,7 @@ var tbPost = map[string]func(w *tbWorld, pre factSnap, err error){
 			if err != nil {
 				verif.Assert(w.L("C14:action-error-names-the-rule"), strings.Contains(err.Error(), "CF1"))
 				verif.Assert(w.L("C14:actions-after-the-failing-one-do-not-run"), w.f.U16 == pre.f.U16)
+				verif.Assert(w.L("C04:nothing-is-written-after-a-failing-action"), w.f.U16 == pre.f.U16)
 			} else {
 				verif.Assert(w.L("C10:actions-after-Complete-still-run"), w.f.U16 == 7)
 			}
@@ -582,6 +632,43 @@ var tbPost = map[string]func(w *tbWorld, pre factSnap, err error){
 		verif.Assert(w.L("C14:condition-failures-are-contained-by-default"), err == nil)
 		verif.Assert(w.L("C14:rule-with-a-failing-condition-does-not-fire"), fs["K1"] == 0 && fs["K2"] == 0 && fs["K5"] == 0)
 		verif.Assert(w.L("C14:healthy-rule-not-disturbed-by-a-failing-sibling"), verif.Implies(pre.f.I8 < 1, fs["K4"] > 0))
+	},
+	// C10: Complete() followed by an assignment to a top-level variable (DataContext.Add is the write path)
+	"b_completetop": func(w *tbWorld, pre factSnap, err error) {
+		fs := firedSet(w)
+		if fs["CT1"] > 0 {
+			verif.Reach("tierB:complete-then-top-level-assignment-fired")
+			verif.Assert(w.L("C10:actions-after-Complete-still-run"), w.topN() == pre.n+5)
+			verif.Assert(w.L("C03:actions-of-the-fired-rule-are-applied-completely"), w.topN() == pre.n+5)
+			verif.Assert(w.L("C10:Execute-returns-nil-after-Complete"), err == nil)
+			verif.Assert(w.L("C10:nothing-fires-after-Complete"), w.fired[len(w.fired)-1] == "CT1")
+			verif.Assert(w.L("C10:the-data-context-stays-complete"), w.dc.IsComplete())
+		}
+	},
+	// C10: a rule that retracts itself and writes only a slice element / map entry leaves the rule it enables alone
+	"b_retractelem": func(w *tbWorld, pre factSnap, err error) {
+		fs := firedSet(w)
+		verif.Assert(w.L("C10:a-rule-that-retracted-itself-fires-once"), fs["RS1"] <= 1 && fs["RM1"] <= 1)
+		if fs["RS1"] == 1 && err == nil {
+			verif.Reach("tierB:self-retracting-element-writer-fired")
+			verif.Assert(w.L("C10:retracting-one-rule-leaves-every-other-rule-unaffected"), verif.Implies(pre.f.U8 < 1, fs["RS2"] > 0))
+		}
+		if fs["RM1"] == 1 && err == nil {
+			verif.Assert(w.L("C10:retracting-one-rule-leaves-every-other-rule-unaffected"), verif.Implies(pre.f.U16 < 1, fs["RM2"] > 0))
+		}
+	},
+	// C14: a rule whose condition failed is tried again once another rule has repaired the fact
+	"b_heal": func(w *tbWorld, pre factSnap, err error) {
+		fs := firedSet(w)
+		verif.Assert(w.L("C14:condition-failures-are-contained-by-default"), err == nil || strings.Contains(err.Error(), "successfully selected"))
+		if fs["HL2"] > 0 && err == nil {
+			verif.Reach("tierB:index-repaired")
+			// after the repair F.In == 0: HL1 is satisfied iff Arr[0] > 0 and it has not fired yet
+			verif.Assert(w.L("C14:rule-whose-condition-failed-is-tried-again-after-the-repair"), verif.Implies(verif.And(pre.arr[0] > 0, pre.f.U8 < 1), fs["HL1"] > 0))
+		}
+		if fs["HL4"] > 0 && err == nil {
+			verif.Assert(w.L("C14:rule-whose-condition-failed-is-tried-again-after-the-repair"), verif.Implies(verif.And(pre.q.V > 0, pre.f.U16 < 1), fs["HL3"] > 0))
+		}
 	},
 	"b_nilptr": func(w *tbWorld, pre factSnap, err error) {
 		verif.Assert(w.L("C14:condition-failures-are-contained-by-default"), err == nil)
@@ -655,6 +742,9 @@ func VerifTierBReuse(set string, maxCycle int, fetchFirst int) {
 // fact values in between (plain Go assignments).
 func VerifTierBReuseSameDC(set string, maxCycle int) { verifTierBReuse(set, maxCycle, 0, 1) }
 
+// VerifTierBReuseOtherInstance: the same data context (facts changed by the host) is passed to a SECOND instance.
+func VerifTierBReuseOtherInstance(set string, maxCycle int) { verifTierBReuse(set, maxCycle, 0, 2) }
+
 func verifTierBReuse(set string, maxCycle int, fetchFirst int, sameDC int) {
 	ts := tbSets[set]
 	tmpl := ts[verif.Choice("template", len(ts))]
@@ -672,7 +762,10 @@ func verifTierBReuse(set string, maxCycle int, fetchFirst int, sameDC int) {
 	if fetchFirst != 0 {
 		_, _ = eng.FetchMatchingRules(w.dc, w.kb)
 	}
-	_, pan1 := run()
+	pan1 := false
+	if fetchFirst != 2 { // 2: the instance has only been used through FetchMatchingRules before the Execute under test
+		_, pan1 = run()
+	}
 	verif.Assert(w.L("C14:no-panic-escapes"), !pan1)
 	f1 := w.f
 	n1 := w.topN()
@@ -696,8 +789,14 @@ func verifTierBReuse(set string, maxCycle int, fetchFirst int, sameDC int) {
 		w.f.B, w.f.C = verif.Bool("F.B'"), verif.Bool("F.C'")
 		w.f.U8, w.f.U16 = verif.Uint8("F.U8'"), verif.Uint16("F.U16'")
 		w.f.Q.V = smallInt("F.Q.V'")
-		if dcx, ok := w.dc.(*ast.DataContext); ok {
-			_ = dcx // the same data context object is passed again
+		if sameDC == 2 {
+			// ... and it is passed to ANOTHER instance of the same knowledge base (the DEFUNC entry the first run left
+			// in the data context must not keep Forget / Changed bound to the first instance)
+			kb2, err := w.lib.NewKnowledgeBaseInstance("T", "1")
+			if err != nil {
+				verif.Stop("no second instance")
+			}
+			w.kb = kb2
 		}
 	}
 	w.fired = nil
@@ -712,6 +811,9 @@ func verifTierBReuse(set string, maxCycle int, fetchFirst int, sameDC int) {
 	}
 	if firedFirst > 0 && len(w.fired) > 0 {
 		verif.Reach("tierB:both-calls-fired")
+	}
+	if fetchFirst == 2 && len(w.fired) > 0 {
+		verif.Reach("tierB:execute-after-fetch-only-fired")
 	}
 	may := map[string]bool{}
 	for _, n := range w.fired {
@@ -824,6 +926,38 @@ func VerifClockReuse() {
 		verif.Assert("C08:clock-read-in-a-later-call-is-not-older-than-the-call@b_clock", w.f.RI >= start)
 	}
 	_ = first
+}
+
+// VerifTierBRemoval: while Execute is in progress, the host removes one rule of the instance (KnowledgeBase.RemoveRuleEntry
+// called from a listener at a chosen firing): the removed rule is never evaluated or fired again in that same run.
+func VerifTierBRemoval(set string, maxCycle int) {
+	ts := tbSets[set]
+	tmpl := ts[verif.Choice("template", len(ts))]
+	w := tbSetup(tmpl, 0, false)
+	w.removing, w.removedEntries = true, map[*ast.RuleEntry]bool{}
+	w.removeAt = verif.Choice("remove-at-firing", maxCycle)
+	w.removeName = w.names[verif.Choice("rule-to-remove", len(w.names))]
+	eng := &engine.GruleEngine{MaxCycle: uint64(maxCycle), Listeners: []engine.GruleEngineListener{w}}
+	panicked := false
+	func() {
+		defer func() {
+			if r := recover(); r != nil {
+				panicked = true
+			}
+		}()
+		_ = eng.Execute(w.dc, w.kb)
+	}()
+	verif.Assert(w.L("C14:no-panic-escapes"), !panicked)
+	verif.Reach("tierB:removal-run-returned")
+	// and never again on this instance
+	if len(w.removedEntries) > 0 && !panicked {
+		ms, err := eng.FetchMatchingRules(w.dc, w.kb)
+		if err == nil {
+			for _, re := range ms {
+				verif.Assert(w.L("C16:rule-removed-during-the-run-never-matches-afterwards"), !w.removedEntries[re])
+			}
+		}
+	}
 }
 
 // VerifTierBSetLoaded / VerifMemoStepLoaded: the same harnesses on the knowledge base loaded back from its GRB image.
